@@ -81,6 +81,10 @@ def run_spec(spec, rec=None):
                 exp[(c, r)] = formula_value(v['$arr'][1])
             else:
                 exp[(c, r)] = normalise(v)
+        for k_, ct in enumerate(spec.get('charts') or []):
+            if ct[0] == len(expect):
+                # chart sheets among the worksheets: they have titles and tabs, no cells and no number
+                model['sheets'].append({'title': ct[1], 'chart': True})
         model['sheets'].append({'title': sh['title'], 'cells': cells, **({'dimension': sh['dimension']} if sh.get('dimension') else {})})
         expect.append(exp)
         spill_of = set()
@@ -91,6 +95,11 @@ def run_spec(spec, rec=None):
                 width = wbk.column_index_from_string(m.group(2)) - wbk.column_index_from_string(m.group(1)) + 1
                 spill_of |= {(c + k, r) for k in range(1, width)}
         spills.append(spill_of)
+    for ct in spec.get('charts') or []:
+        if ct[0] >= len(expect):
+            model['sheets'].append({'title': ct[1], 'chart': True})
+    if (spec.get('charts') or []) and not any(e for e in expect[:1]):
+        model['sheets'] = [m for m in model['sheets'] if not m.get('chart')]    # the chart needs two cells of the first sheet to point at
     path = wbk.write_xlsx(model)
     fails = []
 
@@ -210,7 +219,7 @@ def run_spec(spec, rec=None):
             decoy_path = wbk.write_xlsx(decoy)
             try:
                 def go():
-                    prs = wbk.Parser().set_excel_file_path(decoy_path).set_entrypoint_cell(wbk.Cell(title, wbk.get_column_letter(c), str(r)))
+                    prs = wbk.Parser().disable_safety_check().set_excel_file_path(decoy_path).set_entrypoint_cell(wbk.Cell(title, wbk.get_column_letter(c), str(r)))
                     prs.get_translation()
                     prs.set_excel_file_path(path)
                     cls = wbk.load_source(prs.get_translation())
@@ -284,7 +293,12 @@ def strategy():
             if cells and draw(st.integers(0, 3)) == 0:
                 sh_['dimension'] = draw(st.sampled_from(['A1:A1', 'A1:B2', 'B2:C3', 'A1:A2']))   # written into the file instead of the true extent
             sheets.append(sh_)
-        return {'sheets': sheets, 'extra_probes': 6}
+        charts = []
+        if draw(st.integers(0, 3)) == 0:
+            for ct in draw(st.lists(st.sampled_from(['Chart1', 'Diagramm 2', 'Z']), min_size=1, max_size=2, unique=True)):
+                if ct.lower() not in {t.lower() for t in ts}:
+                    charts.append([draw(st.integers(0, n)), ct])
+        return {'sheets': sheets, 'extra_probes': 6, 'charts': sorted(charts)}
     return spec()
 
 
